@@ -7,6 +7,7 @@ Generated node functions record every invocation in a shared call log.
 from __future__ import annotations
 
 import asyncio
+import warnings
 
 from typing import Any
 
@@ -45,6 +46,7 @@ class Env:
         self.received: list[tuple[str, str, int]] = []  # (fnid, param, id(obj)) when identity tracking is on
         self.track_identity = False
         self.funcs: dict[str, Any] = {}
+        self.nodes: dict[str, Any] = {}      # function-node OBJECTS built so far (for nodes derived from an earlier, already used object)
         self.late_renames = False
         self.exercise_intermediates = True
         self.bases: dict[int, Any] = {}
@@ -76,7 +78,19 @@ def py_val(j: Any) -> Any:
             return {py_val(x) for x in j["S"]}
         if "F" in j:
             return frozenset(py_val(x) for x in j["F"])
+        if "plain" in j:
+            return Plain(j["plain"])
     raise ValueError(f"bad value encoding: {j!r}")
+
+
+class Plain:
+    """An object without value semantics: default (address-bearing) repr, identity equality; `n` tells two of them apart for the oracle."""
+
+    def __init__(self, n: Any) -> None:
+        self.n = n
+
+    def __reduce__(self) -> tuple:
+        return (Plain, (self.n,))
 
 
 def enc_val(v: Any) -> Any:
@@ -93,6 +107,8 @@ def enc_val(v: Any) -> Any:
         return {"l": [enc_val(x) for x in v]}
     if isinstance(v, UserErr):
         return {"err": v.tag}
+    if type(v) is Plain:
+        return {"plain": v.n}
     if type(v) is dict:
         return {"d": sorted(([enc_val(k), enc_val(x)] for k, x in v.items()), key=repr)}
     if type(v) in (set, frozenset):
@@ -275,13 +291,44 @@ def _exercise(n: Any, env: Env, run: bool = False) -> None:
             saved = (env.log, env.park, env.inflight, env.max_inflight, env.received)
             env.log, env.park, env.received = [], None, []
             try:
-                from hypergraph import SyncRunner
+                from hypergraph import AsyncRunner, SyncRunner
+                from hypergraph.cache import InMemoryCache
 
-                SyncRunner().run(g, {k: ([0] if k in mapped else 0) for k in g.inputs.required}, error_handling="continue", max_iterations=4)
+                vals = {k: ([0] if k in mapped else 0) for k in g.inputs.required}
+                with warnings.catch_warnings():
+                    warnings.simplefilter("ignore")
+                    try:
+                        SyncRunner(cache=InMemoryCache()).run(g, vals, error_handling="continue", max_iterations=4)
+                    except (Exception, asyncio.CancelledError):  # noqa: BLE001 - e.g. coroutine functions: use the async runner
+                        try:
+                            asyncio.get_running_loop()
+                        except RuntimeError:
+                            asyncio.run(AsyncRunner(cache=InMemoryCache()).run(g, vals, error_handling="continue", max_iterations=4))
             finally:
                 env.log, env.park, env.inflight, env.max_inflight, env.received = saved
     except (Exception, asyncio.CancelledError):  # noqa: BLE001 - only a warm-up
         pass
+
+
+def _detour(gn: Any, env: Env, what: str) -> Any:
+    """A longer rename HISTORY with the same net effect: the first input / output is renamed away to a temporary name, the wrapper is
+    used, and the name is renamed back (a name that returns to an earlier holder: stale keys in every rename map)."""
+    names = list(gn.inputs if what == "inputs" else gn.outputs)
+    cur = names[0]
+    tmp = f"zz_tmp_{cur}"
+    if tmp in gn.inputs or tmp in gn.outputs:
+        return gn
+    ren = gn.with_inputs if what == "inputs" else gn.with_outputs
+    try:
+        away = ren({cur: tmp})
+        _exercise(away, env, run=True)
+        back = (away.with_inputs if what == "inputs" else away.with_outputs)({tmp: cur})
+        if list(back.inputs) != list(gn.inputs) or list(back.outputs) != list(gn.outputs):
+            return gn
+        _exercise(back, env, run=True)
+        return back
+    except (Exception, asyncio.CancelledError):  # noqa: BLE001 - a rename the library rejects is simply not part of the history
+        return gn
 
 
 def build_node(spec: dict, gi: int, graphs: list[Any], env: Env, *, async_bodies: bool) -> Any:
@@ -290,6 +337,10 @@ def build_node(spec: dict, gi: int, graphs: list[Any], env: Env, *, async_bodies
     in_ren = dict(spec.get("inRen", [])) or None
     emits = _tuple_or_none(spec.get("emits", []))
     wait_for = _tuple_or_none(spec.get("waitFor", []))
+    if kind == "fn" and spec.get("deriveOutputsFrom"):
+        # the node is DERIVED (with_outputs) from a node object built — and possibly run, cached — earlier in this case
+        base = env.nodes[f"{gi}:{spec['deriveOutputsFrom']}"]
+        return base.with_outputs({a: b for a, b in zip(base.outputs, spec["dataOuts"]) if a != b})
     if kind == "fn":
         if spec.get("sameFuncAs"):
             func = env.funcs[f"{gi}:{spec['sameFuncAs']}"]      # two nodes over ONE function object
@@ -306,7 +357,7 @@ def build_node(spec: dict, gi: int, graphs: list[Any], env: Env, *, async_bodies
             except (Exception, asyncio.CancelledError):  # noqa: BLE001 - only a warm-up
                 pass
             return base.with_inputs(in_ren)
-        return FunctionNode(
+        node = FunctionNode(
             func,
             name=spec["name"],
             output_name=_tuple_or_none(spec.get("dataOuts", [])),
@@ -315,6 +366,8 @@ def build_node(spec: dict, gi: int, graphs: list[Any], env: Env, *, async_bodies
             emit=emits,
             wait_for=wait_for,
         )
+        env.nodes[fnid] = node
+        return node
     if kind == "route":
         func = make_function(spec, fnid, env, is_async=False)
         fb = spec.get("fallback")
@@ -357,12 +410,16 @@ def build_node(spec: dict, gi: int, graphs: list[Any], env: Env, *, async_bodies
         # that keeps and reuses intermediate wrappers does; derived objects must not inherit anything stale from that use
         gn = graphs[spec["inner"]].as_node(name=spec["name"])
         if in_ren:
-            _exercise(gn, env)
+            _exercise(gn, env, run=True)
             gn = gn.with_inputs(in_ren)
+        if env.exercise_intermediates and gn.inputs:
+            gn = _detour(gn, env, "inputs")
         out_ren = dict(spec.get("outRen", []))
         if out_ren:
-            _exercise(gn, env)
+            _exercise(gn, env, run=True)
             gn = gn.with_outputs(out_ren)
+        if env.exercise_intermediates and gn.outputs:
+            gn = _detour(gn, env, "outputs")
         if spec.get("mapOver"):
             _exercise(gn, env)
             if env.exercise_intermediates:
